@@ -135,7 +135,7 @@ def gen_cases(ctx):
         fmt = "jpeg" if (q and i != 1) else rng.choice(["jpeg", "png"]) if q else ["jpeg", "png", "mp4"][i % 3]
         cases.append({"fmt": fmt, "steps": st, "muts": std_muts(rng, k, 1, 1, fmt=fmt)})
     # B. crafted variants violating one rule each (and combinations)
-    fa = rng.sample(FORBIDDEN_ACTIONS, 1 if q else 3)
+    fa = ["c2pa.edited"] + rng.sample(FORBIDDEN_ACTIONS[1:], 1 if q else 3)
     crafted = [step(via="craft", flag=True, hash="zero"),
                step(via="craft", flag=True, parents=2),
                step(via="craft", flag=True, parents=0),
@@ -379,6 +379,10 @@ def search(ctx):
     for fmt in ("jpeg", "png", "mp4"):
         cases.append({"fmt": fmt, "steps": [step()], "muts": std_muts(ctx.rng, 12, 4, 0, fmt=fmt)})
         cases.append({"fmt": fmt, "steps": [step(), step()], "muts": std_muts(ctx.rng, 8, 2, 0, fmt=fmt)})
+    for a in FORBIDDEN_ACTIONS:
+        cases.append({"fmt": "jpeg", "steps": [step(via="craft", flag=True, actions=[a])], "muts": []})
+    for st in (step(via="craft", flag=True, parents=2), step(via="craft", flag=True, parents=0), step(via="craft", flag=True, parents=3)):
+        cases.append({"fmt": "jpeg", "steps": [st], "muts": []})
     for i, c in enumerate(cases):
         c["id"] = i
     evaluate(ctx, cases, with_model=False)
